@@ -590,7 +590,9 @@ properties[Profiles.CSS_LEVEL_2] = {
     'unicode-bidi': r'normal|embed|bidi-override|inherit',
     'vertical-align': r'baseline|sub|super|top|text-top|middle|bottom|text-bottom|{percentage}|{length}|inherit',
     'visibility': r'visible|hidden|collapse|inherit',
-    'voice-family': r'({specific-voice}|{generic-voice}{w},{w})*({specific-voice}|{generic-voice})|inherit',
+    # a comma separated list; a {generic-voice} is an {ident}, so it is a
+    # {specific-voice} as far as this check goes
+    'voice-family': r'({specific-voice}{w},{w})*{specific-voice}|inherit',
     'volume': r'{number}|{percentage}|silent|x-soft|soft|medium|loud|x-loud|inherit',
     'white-space': r'normal|pre|nowrap|pre-wrap|pre-line|inherit',
     'widows': r'{integer}|inherit',
